@@ -87,7 +87,10 @@ func (db *DB) flush(n int) (mdb *memDB, mdbFree int, err error) {
 			time.Sleep(time.Millisecond)
 		case mdbFree >= n:
 			return false
-		case tLen >= pauseTrigger:
+		case tLen >= pauseTrigger && db.tableNeedCompaction():
+			// (Waiting for a table compaction makes sense only when one is
+			// due; otherwise the wait is answered at once and this loop
+			// would spin for ever holding the write lock.)
 			delayed = true
 			// Set the write paused flag explicitly.
 			atomic.StoreInt32(&db.inWritePaused, 1)
